@@ -21,3 +21,10 @@ class VariableBoundBoundsMinPropagator(VariableBoundMinPropagator):
     def min(self):
         return (self.other.domain.range_l[0][0]+self.offset)
     
+
+    def propagate(self):
+        # An empty domain (the other variable has no value left, eg 
+        # membership in an empty range) gives nothing to propagate
+        if len(self.other.domain.range_l) == 0:
+            return False
+        return super().propagate()
